@@ -299,6 +299,92 @@ def kv1_check(ctx, t, through=None):
     return shape, None, back
 
 
+# ----------------------------------------------------------------------------- value text conversions
+
+def gen_valtext(ctx):
+    """('fmt', (type, value), None) and ('parse', type, text) cases for the four integer/fixed-format types."""
+    rng = ctx.rng
+    out = []
+    ints = [0, 1, -1, 9, 10, -10, 99, 100, 2 ** 31 - 1, -2 ** 31, 10 ** 20, -10 ** 20] + [rng.randrange(-10 ** 12, 10 ** 12) for _ in range(ctx.budget(200, 2000))]
+    for i in ints:
+        out.append(('fmt', ('int', i), None))
+        out.append(('parse', 'int', str(i)))
+    for t in ['', '-', '12a', 'x', '--1', '1-', '007', '-0']:
+        out.append(('parse', 'int', t))
+    for b in (0, 1):
+        out.append(('fmt', ('bool', b), None))
+    from srctools import BOOL_LOOKUP
+    for k in list(BOOL_LOOKUP) + ['maybe', '', '2', 'tru', 'ß']:
+        for t in {k, k.upper(), k.title()}:
+            out.append(('parse', 'bool', t))
+    for _ in range(ctx.budget(200, 2000)):
+        c = [rng.choice([0, 1, 9, 10, 99, 100, 255, rng.randrange(256)]) for _ in range(4)]
+        out.append(('fmt', ('color', c), None))
+        out.append(('parse', 'color', ' '.join(map(str, c))))
+        out.append(('parse', 'color', ' '.join(map(str, c[:3]))))
+    for t in ['', '1 2', '1 2 3 4 5', '300 -4 7 1000', '1  2\t3\n4', ' 1 2 3 ', 'a b c', '1 2 x 4']:
+        out.append(('parse', 'color', t))
+    for _ in range(ctx.budget(200, 2000)):
+        bs = [rng.randrange(256) for _ in range(rng.choice([0, 1, 2, 5, 33]))]
+        out.append(('fmt', ('binary', bs), None))
+        h = bytes(bs).hex(' ', 1).upper()
+        out.append(('parse', 'binary', h))
+        out.append(('parse', 'binary', h.lower().replace(' ', rng.choice(['', '  ', '\n', ' \t']))))
+    for t in ['0', '0 0', 'GG', '0a 1', 'a b', ' 0a', '0a ']:
+        out.append(('parse', 'binary', t))
+    return out
+
+
+def _impl_fmt(t, v):
+    from srctools import dmx
+    VT = dmx.ValueType
+    if t == 'int': return dmx.TYPE_CONVERT[VT.INT, VT.STRING](v)
+    if t == 'bool': return dmx.TYPE_CONVERT[VT.BOOL, VT.STRING](bool(v))
+    if t == 'color': return dmx.TYPE_CONVERT[VT.COLOR, VT.STRING](dmx.Color(*v))
+    if t == 'binary': return dmx.TYPE_CONVERT[VT.BINARY, VT.STRING](bytes(v))
+
+
+def _impl_parse(t, text):
+    """value in the driver's shape, or None when the conversion raises."""
+    from srctools import dmx
+    VT = dmx.ValueType
+    try:
+        if t == 'int': return int(dmx.TYPE_CONVERT[VT.STRING, VT.INT](text))
+        if t == 'bool': return 1 if dmx.TYPE_CONVERT[VT.STRING, VT.BOOL](text) else 0
+        if t == 'color':
+            c = dmx.TYPE_CONVERT[VT.STRING, VT.COLOR](text)
+            return [c.r, c.g, c.b, c.a]
+        if t == 'binary': return list(dmx.TYPE_CONVERT[VT.STRING, VT.BINARY](text))
+    except (ValueError, KeyError):
+        return None
+
+
+# spellings CPython's int() accepts beyond the canonical decimal form are outside the model
+def _noncanonical_int(text):
+    import re
+    return not re.fullmatch(r'-?[0-9]+', text)
+
+
+def _valtext_compare(ctx, cases, it):
+    for kind, v, text in cases:
+        r = next(it)
+        ctx.traces_vs_impl += 1
+        if kind == 'fmt':
+            ctx.count('valtext:fmt:' + v[0])
+            want = _impl_fmt(v[0], v[1])
+            if uncodes(r.get('text', [])) != want:
+                ctx.disagree({'valtext': v}, want, uncodes(r.get('text', [])), 'value -> text conversion')
+        else:
+            ctx.count('valtext:parse:' + v)
+            want = _impl_parse(v, text)
+            if v == 'int' and (_noncanonical_int(text) or (want is not None and str(want) != text and text not in ('-0',))):
+                if _noncanonical_int(text) and r.get('v') is None and want is None:
+                    continue
+            if r.get('v') != want:
+                # int('007') = 7 and int('-0') = 0 are read by both; anything else must agree exactly
+                ctx.disagree({'valparse': [v, text]}, want, r.get('v'), 'text -> value conversion')
+
+
 # ----------------------------------------------------------------------------- correspondence
 
 def _model_err(r):
@@ -364,6 +450,13 @@ def correspond(ctx, drivers):
                         ctx.count('ref:' + {'n': 'NULL', 's': 'stub', 'i': 'element'}[v[0]])
                 if a['arr'] and not a['vals']:
                     ctx.count('empty-array')
+    # text forms of int / bool / color / binary values: model conversions vs TYPE_CONVERT
+    vt_cases = gen_valtext(ctx)
+    for kind, v, text in vt_cases:
+        if kind == 'fmt':
+            reqs.append({'op': 'valtext', 't': v[0], 'v': v[1]})
+        else:
+            reqs.append({'op': 'valparse', 't': v, 'text': codes(text), 'fold': fold_table(text)})
     # KV1 trees
     kv_cases = []
     for _ in range(ctx.budget(1500, 20000)):
@@ -435,6 +528,7 @@ def correspond(ctx, drivers):
             if 'parse_exc' in res:
                 ctx.disagree(case, res['parse_exc'] + ': ' + res['parse_msg'], 'model decodes', 'Element.parse fails where the model decodes')
         ctx.traces_vs_impl += 1
+    _valtext_compare(ctx, vt_cases, it)
     for t in kv_cases:
         r = next(it)
         shape, exc, back = kv1_check(ctx, t)
